@@ -35,7 +35,8 @@ RS2LEAN_SPECS = [('words.json', 'WordsSrcGen.lean', 'SrcWords'), ('rdh.json', 'R
                  ('trigstats.json', 'TrigSrcGen.lean', 'SrcTrig'),
                  ('lanechecks.json', 'LaneSrcGen.lean', 'SrcLane'),
                  ('alpidestats.json', 'AlpStatsSrcGen.lean', 'SrcAlpStats'),
-                 ('scanner.json', 'ScanSrcGen.lean', 'SrcScan')]
+                 ('scanner.json', 'ScanSrcGen.lean', 'SrcScan'),
+                 ('linkval.json', 'LinkSrcGen.lean', 'SrcLink')]
 
 os.makedirs(CACHE, exist_ok=True)
 
